@@ -35,8 +35,9 @@ ONE_STEP = [None, 0, None, 56]
 
 
 class Cell:
-    def __init__(self, l, slot, vals):
+    def __init__(self, l, slot, vals, page=1):
         self.l, self.slot = l, slot
+        self.page = page        # 4 KiB page (mod 4) of the object: its 2-bit field of the side LOS byte (slots: page 1)
         self.v = dict(zip(LOCS, vals))
 
     @staticmethod
@@ -52,6 +53,8 @@ class Cell:
 
     def fld(self, kind):
         loc, sh, w = FIELDS[kind][self.l]
+        if kind == "los" and self.l == 0:
+            return loc, 2 * (self.page % 4), w
         return loc, sh(self.slot), w
 
     def get(self, kind):
@@ -82,7 +85,11 @@ class Cell:
         return tuple(c.v[k] for k in LOCS)
 
     def copy(self):
-        return Cell(self.l, self.slot, [self.v[k] for k in LOCS])
+        return Cell(self.l, self.slot, [self.v[k] for k in LOCS], self.page)
+
+    def at(self, j, los=False):
+        """the same memory seen from object `j` of a group (LOS groups: one object per page)"""
+        return Cell(self.l, self.slot if los else j, [self.v[k] for k in LOCS], j if los else self.page)
 
 
 def fmt_ref(slot, a):
@@ -136,6 +143,22 @@ class ConcSpec(unit.UnitSpec):
     def race_summary(self, cases, outs):
         return {}
 
+    # multi-object races (harness/src/comp/conc/group.rs): k objects whose fields share one metadata byte
+    def group_cases(self, rng, tier):
+        """-> list of Case(ops=[`… mrace …` line], pre=[cfg debug 1, cell set 0 0 <template>])"""
+        return []
+
+    def group_judge_op(self, case, j, obj):
+        """the `… judgeat <j> …` line fed to mmtk_model for object j's outcome text `obj`"""
+        raise NotImplementedError
+
+    def group_oracle(self, case, rounds):
+        """independent Python verdict on all rounds of one case (rounds = [[object text, …], …]): list of (key, what)"""
+        return []
+
+    def group_summary(self, cases, parsed):
+        return {}
+
 
 def run_races(spec, tier, seed, violations, stats):
     exe, err, bs = E.cargo_build(spec.bin, fs=spec.fs)
@@ -174,6 +197,77 @@ def run_races(spec, tier, seed, violations, stats):
         d[k] = v
 
 
+def parse_group(line):
+    """`o ; o ;; o ; o` -> [[o, o], [o, o]] or None (the race did not finish)"""
+    if not line or " | " not in line:
+        return None
+    return [[o.strip() for o in r.split(" ; ")] for r in line.split(" ;; ")]
+
+
+def run_groups(spec, tier, seed, violations, stats):
+    """Multi-object races: every object of every round is judged on its own by the executable Lean predicate
+    (`… judgeat`, distinct outcomes are judged once per case) and by the Python oracle."""
+    exe, err, bs = E.cargo_build(spec.bin, fs=spec.fs)
+    if exe is None:
+        return
+    rng = random.Random(seed * 104729 + 71)
+    cases = spec.group_cases(rng, tier)
+    if not cases:
+        return
+    t0 = time.time()
+    outs = E.run_cases(exe, cases, timeout=3000)
+    stats["group_race_s"] = round(time.time() - t0, 1)
+    parsed = [parse_group(o[0] if o else "") for o in outs]
+    stats["group_hang"] = any(o and o[0] == "hang" for o in outs)
+    jcases, jkeys = [], []
+    for c, rounds in zip(cases, parsed):
+        distinct = []
+        seen = set()
+        for r in rounds or []:
+            for j, obj in enumerate(r):
+                if (j, obj) not in seen:
+                    seen.add((j, obj))
+                    distinct.append((j, obj))
+        jkeys.append(distinct)
+        jcases.append(Case([spec.group_judge_op(c, j, obj) for j, obj in distinct] or ["cell set 0 0 0 0 0 0 0 0 0 0"], c.pre, c.tag))
+    verdicts = E.run_cases(E.model_exe(), jcases, timeout=1800)
+    nrounds = sum(len(r) for r in parsed if r)
+    nobj = sum(len(o) for r in parsed if r for o in r)
+    stats["group_rounds"] = nrounds
+    stats["group_objects_judged"] = nobj
+    stats["group_distinct_outcomes_judged_by_lean"] = sum(len(d) for d in jkeys)
+    stats["group_samples"] = [{"case": c.pre[1:] + c.ops, "impl_first_round": (r[0] if r else o), "lean_verdicts_first": v[:8]}
+                              for c, r, o, v in list(zip(cases, parsed, outs, verdicts))[:2]]
+    seen = set()
+    nrej = 0
+    for c, o, rounds, dk, v in zip(cases, outs, parsed, jkeys, verdicts):
+        where = " ; ".join(c.pre[1:] + c.ops)
+        if rounds is None:
+            orc = [(f"race:{spec.race_component}:group:crash", f"multi-object race did not finish: {str(o)[:200]}")]
+            rej = []
+        else:
+            orc = spec.group_oracle(c, rounds)
+            rej = [(j, obj, x) for (j, obj), x in zip(dk, v) if x != "ok"]
+            if len(v) != len(dk):
+                rej.append((-1, "", f"model answered {len(v)} of {len(dk)} judge lines"))
+        nrej += len(rej)
+        if rej and not orc:
+            j, obj, x = rej[0]
+            orc = [(f"race:{spec.race_component}:group:lean-verdict",
+                    f"object {j}: outcome `{obj}` rejected by the executable Lean predicate ({x}) but accepted by the Python oracle")]
+        for key, what in orc:
+            if key in seen:
+                continue
+            seen.add(key)
+            lv = [f"object {j}: {x}: {obj}" for j, obj, x in rej[:3]]
+            violations.append(Violation(key, what + f" [multi-object race: {where}; rejected by Lean: {lv}]",
+                                        Case(c.ops, c.pre), [str(o)[:2000]], lv, True))
+    stats["group_rejected_by_lean"] = nrej
+    d = stats.setdefault("distribution", {})
+    for k, v in spec.group_summary(cases, parsed).items():
+        d[k] = v
+
+
 def main(spec, argv=None, env=None):
     ap = argparse.ArgumentParser()
     ap.add_argument("--tier", default=os.environ.get("VERIF_TIER", "quick"))
@@ -192,22 +286,31 @@ def main(spec, argv=None, env=None):
     if a.tier == "thorough" and spec.release_in_thorough:
         unit.run_profile(spec, a.tier, a.seed, False, lean["ok"], violations, stats)
     if not any(v.key == "harness-build-failed" for v in violations):
-        run_races(spec, a.tier, a.seed, violations, stats)
+        # the multi-object races first: they detect a thread stuck inside mmtk-core (answer `hang` after 10 s); the
+        # single-object races join their threads and would then block until the engine's timeout
+        run_groups(spec, a.tier, a.seed, violations, stats)
+        if not stats.get("group_hang"):
+            run_races(spec, a.tier, a.seed, violations, stats)
     if not lean["ok"] and not any(v.found_input for v in violations):
         names = [f.get("theorem") or f.get("module") or f["kind"] for f in lean["failures"]]
         violations.append(Violation("proof-broken", f"Lean obligations no longer check: {lean['failures']}",
                                     None, None, None, False, broken=f"theorems/modules: {names}"))
     distinct = len(stats.pop("_distinct", set()))
-    n = stats.get("evaluations", 0) + stats.get("races", 0)
+    n = stats.get("evaluations", 0) + stats.get("races", 0) + stats.get("group_rounds", 0)
     corr = {
         "evaluations": n,
-        "distinct_nontrivial": distinct + stats.get("races", 0),
+        "distinct_nontrivial": distinct + stats.get("races", 0) + stats.get("group_rounds", 0),
         "rule": spec.rule,
-        "samples": stats.get("samples", []) + stats.get("race_samples", []),
+        "samples": stats.get("samples", []) + stats.get("race_samples", []) + stats.get("group_samples", []),
         "traces_validated_against_impl": n,
         "sequential_cases": stats.get("evaluations", 0),
         "real_thread_races": stats.get("races", 0),
         "races_rejected_by_lean_predicate": stats.get("race_rejected_by_lean", 0),
+        "multi_object_race_rounds": stats.get("group_rounds", 0),
+        "multi_object_outcomes_judged": stats.get("group_objects_judged", 0),
+        "multi_object_distinct_outcomes_judged_by_lean": stats.get("group_distinct_outcomes_judged_by_lean", 0),
+        "multi_object_outcomes_rejected_by_lean_predicate": stats.get("group_rejected_by_lean", 0),
+        "group_race_s": stats.get("group_race_s"),
         "disagreements_checked": stats.get("disagreements", 0),
         "op_lines": stats.get("op_lines", 0),
         "distribution": stats.get("distribution", {}),
@@ -227,6 +330,8 @@ def replay(spec, path):
     pre = [l for l in lines if l.startswith("cfg ") or l.startswith("cell set")]
     ops = [l for l in lines if l not in pre]
     is_race = any(" race " in l for l in ops)
+    if any(" mrace " in l for l in ops):
+        return replay_group(spec, pre, ops)
     if not is_race:
         return unit.replay(spec, path)
     exe, err, _ = E.cargo_build(spec.bin, fs=spec.fs)
@@ -243,3 +348,26 @@ def replay(spec, path):
             break
     print("REPLAY:", "violation reproduced" if bad else "no longer reproduces (200 schedules)")
     return 1 if bad else 0
+
+
+def replay_group(spec, pre, ops):
+    exe, err, _ = E.cargo_build(spec.bin, fs=spec.fs)
+    E.run(["lake", "build", "mmtk_model"], cwd=E.LEAN_DIR)
+    for i in range(20):       # a race is a schedule sample: repeat it (each op already runs many rounds)
+        c = Case(ops, pre)
+        o = E.run_cases(exe, [c])[0]
+        rounds = parse_group(o[0] if o else "")
+        if rounds is None:
+            print("multi-object race did not finish:", o)
+            print("REPLAY: violation reproduced")
+            return 1
+        orc = spec.group_oracle(c, rounds)
+        dk = sorted({(j, obj) for r in rounds for j, obj in enumerate(r)})
+        v = E.run_cases(E.model_exe(), [Case([spec.group_judge_op(c, j, obj) for j, obj in dk], pre)])[0]
+        rej = [(j, obj, x) for (j, obj), x in zip(dk, v) if x != "ok"]
+        if orc or rej:
+            print("multi-object race:", ops, "oracle:", orc[:5], "rejected by the Lean predicate:", rej[:5])
+            print("REPLAY: violation reproduced")
+            return 1
+    print("REPLAY: no longer reproduces (20 runs of the multi-object race)")
+    return 0
